@@ -4,6 +4,7 @@
 package hx
 
 import (
+	"bytes"
 	"context"
 	"crypto/sha256"
 	"encoding/hex"
@@ -14,6 +15,7 @@ import (
 	"time"
 
 	ipfslog "berty.tech/go-ipfs-log"
+	"berty.tech/go-ipfs-log/accesscontroller"
 	"berty.tech/go-ipfs-log/enc"
 	"berty.tech/go-ipfs-log/entry"
 	"berty.tech/go-ipfs-log/entry/sorting"
@@ -154,7 +156,20 @@ func ModelCmp(order string) model.Cmp {
 
 // ---------------------------------------------------------------- world
 
+// DenyPrefix: payloads starting with it are refused by the replicas' access controller in histories with failures.
+const DenyPrefix = "DENY:"
+
+type denyPrefixACL struct{}
+
+func (denyPrefixACL) CanAppend(e accesscontroller.LogEntry, _ idp.Interface, _ accesscontroller.CanAppendAdditionalContext) error {
+	if bytes.HasPrefix(e.GetPayload(), []byte(DenyPrefix)) {
+		return fmt.Errorf("payload refused by the replica's access controller")
+	}
+	return nil
+}
+
 type World struct {
+	DenyPrefix bool
 	Seed   int64
 	Ctx    context.Context
 	Store  *store.Store
@@ -186,7 +201,11 @@ func (w *World) Identity(name string) *idp.Identity {
 }
 
 func (w *World) LogOpts(id string) *ipfslog.LogOptions {
-	return &ipfslog.LogOptions{ID: id, SortFn: SortFn(w.Order), IO: w.io}
+	lo := &ipfslog.LogOptions{ID: id, SortFn: SortFn(w.Order), IO: w.io}
+	if w.DenyPrefix {
+		lo.AccessController = denyPrefixACL{}
+	}
+	return lo
 }
 
 func (w *World) NewLog(ident int) *ipfslog.IPFSLog {
@@ -273,6 +292,7 @@ func Hashes(es []iface.IPFSLogEntry) []string {
 
 // Obs is what one observation of a log through its public API yields.
 type Obs struct {
+	NilEntries int // nil values handed out by GetEntries()/Values()/Heads() (a corrupted index)
 	ID         string
 	Set        model.Set
 	Heads      []string
@@ -287,6 +307,10 @@ type Obs struct {
 func Observe(l *ipfslog.IPFSLog) *Obs {
 	o := &Obs{ID: l.GetID(), Set: model.Set{}}
 	for _, e := range l.GetEntries().Slice() {
+		if e == nil {
+			o.NilEntries++
+			continue
+		}
 		o.Set[e.GetHash().String()] = ToModel(e)
 	}
 	o.Heads = Hashes(l.Heads().Slice())
